@@ -34,6 +34,9 @@ def dispatch (op : String) (ts : List String) : Option String :=
       | some (t, []) => "ok " ++ encJTree (jsonOf t)
       | _ => "bad-op")
   | "deriv" => some (printOp derivOf ts)
+  | "mathml_cat" => some (match pStr ts with
+      | some (s, []) => "ok " ++ " ; ".intercalate ((mathmlCat s).map fun (a, b) => encStr a ++ " " ++ encStr b)
+      | _ => "bad-op")
   | "prolog_en" => some (match OpsXml.pBatch ts with
       | some (b, []) => encExcept encStr (prologEn b)
       | _ => "bad-op")
